@@ -21,7 +21,14 @@ RULE = ("three kinds of case. (1) intf: an interface stanza rendered from a stru
         "vrf, interface, next hop, global, distance, name, permanent|track, tag; the corner with neither interface nor next hop is kept "
         "and mapped to known finding F25 when a keyword follows the mask; whitespace variants and malformed lines model-vs-code only. "
         "(3) tree: dumps (texts, parents, children) with factory on vs off for ios/nxos/iosxr/asa on treelib's random configs, "
-        "banner/macro blocks, the vendor fixtures and all generated stanzas; a factory parse that raises is allowed. "
+        "banner/macro blocks, the vendor fixtures and all generated stanzas; a factory parse that raises is allowed; plus junos with the "
+        "factory on (brace configs and random lines; oracle only, the tree model has no brace conversion) and a dispatch stream whose lines "
+        "walk the class list to its end (indented 'ipv6 route' / 'interface' / 'ip route' / 'hostname', 'aaa accounting|authentication|"
+        "authorization', the IOSIntfGlobal commands). (4) factory-guard: config_line_factory called directly with each argument of a wrong "
+        "type (all_lines tuple/None/str, line None/int/bytes, comment_delimiters str/tuple, syntax None/int/list/unknown, debug None/str/float) "
+        "one at a time and in random pairs; accepted calls must return an object whose text is the line, the others must raise; the exception "
+        "class is compared with the model. Observed since the coverage pass: port and ip_addr of an interface; address_family, nexthop_str, "
+        "nexthop_vrf and unicast of a route; 'ip address dhcp|negotiated <mask>' and several remove / except lines among the variant children. "
         "non-trivial = a stanza with >= 2 described children / a route with >= 2 optional slots / a config with an indented line.")
 LEVEL_TEXT = ("PARTIAL (the regex -> word-matcher step is modelled, not proved). Theorems (Lean 4, all descriptions, no size bound) about the "
               "token-level model Ccp.Ios: lex_render_line -- a line 'indent ++ words joined by single blanks' lexes to exactly that indent and "
@@ -40,7 +47,9 @@ LEVEL_TEXT = ("PARTIAL (the regex -> word-matcher step is modelled, not proved).
               "with any accepted class-word tail; header_roundtrip -- name and dispatch to IOSIntfLine; "
               "route_roundtrip / route_accessors_roundtrip -- for every (vrf?, prefix, mask, intf?, nh?, global?, ad?, name?, permanent|track?, "
               "tag?) with at least one of intf/nh the slot consumer standing for _RE_IP_ROUTE returns every described value and the defaults; "
-              "route_f25_witness; factory_transparent -- texts, parents and child lists are a function of (syntax flag, delimiters, ignore_blank, "
+              "route_f25_witness; port_roundtrip; route_nexthop_str_roundtrip (nexthop_str = interface and next hop joined by one blank, "
+              "address_family ip, nexthop_vrf / unicast always raise); factory_guard_spec (config_line_factory reaches its class walk iff all_lines is a "
+              "list, line a str, comment_delimiters None or a list, debug an int and syntax in the regenerated ALL_VALID_SYNTAX); factory_transparent -- texts, parents and child lists are a function of (syntax flag, delimiters, ignore_blank, "
               "lines) only: Ccp.Tree.parse has no class/factory input. NOT proved, correspondence only: "
               "ordinal_list with a class word, interface_number of '.sub:chan' names, add/remove/except lines of trunk_vlans_allowed, unrelated lines starting with 'switchport'. The "
               "model is tied to IOSIntfLine / IOSRouteLine / CiscoConfParse(factory=True) by differential runs on every check, incl. whitespace "
@@ -68,9 +77,10 @@ INTF_FIELDS = ["name", "port_type", "ordinal_list", "interface_number", "subinte
                "description", "ipv4_addr", "ipv4_netmask", "ipv4_masklength", "ipv4_addr_object", "ip_secondary_addresses",
                "ip_secondary_networks", "vrf", "manual_mtu", "manual_ip_mtu", "is_shutdown", "is_switchport",
                "has_manual_switch_access", "has_manual_switch_trunk", "access_vlan", "native_vlan", "trunk_vlans_allowed",
-               "portchannel_number", "is_in_portchannel"]
+               "portchannel_number", "is_in_portchannel", "port", "ip_addr"]
 ROUTE_FIELDS = ["vrf", "network", "netmask", "masklen", "next_hop_interface", "next_hop_addr", "admin_distance", "route_name",
-                "tracking_object_name", "tag", "permanent", "multicast", "global_next_hop"]
+                "tracking_object_name", "tag", "permanent", "multicast", "global_next_hop",
+                "address_family", "nexthop_str", "nexthop_vrf", "unicast"]
 
 MAIN = ["description", "addr", "vrf", "mtu", "shutdown", "switchport", "access_vlan", "native_vlan", "allowed", "channel_group"]
 MASKS = [".".join(str((((0xFFFFFFFF << (32 - n)) & 0xFFFFFFFF) >> s) & 255) for s in (24, 16, 8, 0)) for n in range(33)]
@@ -278,6 +288,8 @@ def expected(d):
     e["trunk_vlans_allowed"] = vl
     e["portchannel_number"] = str(d["channel_group"][0] if d["channel_group"] else -1)
     e["is_in_portchannel"] = "T" if d["channel_group"] else "F"
+    e["port"] = str(port)
+    e["ip_addr"] = e["ipv4_addr"]
     return e
 
 
@@ -320,7 +332,24 @@ def mk_tree(syntax, ign, delims, lines, origin="gen", stream="tree"):
     return c
 
 
+AL_KINDS = {"list": True, "tuple": False, "None": False, "str": False}
+LINE_KINDS = {"str": True, "None": False, "int": False, "bytes": False}
+DELIM_KINDS = {"None": "-", "list": "1", "str": "0", "tuple": "0"}
+DEBUG_KINDS = {"0": True, "1": True, "True": True, "None": False, "str": False, "float": False}
+
+
+def mk_factory(al, ln, ds, syn, dbg, line="hostname R1", origin="gen"):
+    """a direct call of config_line_factory: which Python type each argument has; syn = ["str", text] or ["None"] / ["int"] / ["list"]"""
+    case = {"kind": "factory", "al": al, "ln": ln, "ds": ds, "syn": list(syn), "dbg": dbg, "line": line, "stream": "factory-guard",
+            "canonical": False, "_origin": origin}
+    case["req"] = wire.req("factory", "guard", "1" if AL_KINDS[al] else "0", "1" if LINE_KINDS[ln] else "0", DELIM_KINDS[ds],
+                           wire.enc_str(syn[1]) if syn[0] == "str" else "-", "1" if DEBUG_KINDS[dbg] else "0")
+    return case
+
+
 def from_corpus(c):
+    if c["kind"] == "factory":
+        return mk_factory(c["al"], c["ln"], c["ds"], c["syn"], c["dbg"], c.get("line", "hostname R1"), "corpus")
     if c["kind"] == "intf":
         return mk_intf(c["lines"], c["idx"], c.get("desc"), c.get("canonical", False), "corpus")
     if c["kind"] == "route":
@@ -355,7 +384,15 @@ def variant_case(rng, d):
                                        "ip address 1.1.1.1", "ip address 1.1.1.1 255.0.0.0 secondary extra", "vrf forwarding",
                                        "vrf forwarding A B", "ip ip vrf forwarding Q", "switchport trunk allowed vlan 1-3, 7",
                                        "switchport trunk allowed vlan add", "switchport trunk allowed vlan none x", "ip address dhcp x",
-                                       "switchport trunk allowed vlan ALL", "switchport access vlan +7", "mtu 1_0"])))
+                                       "switchport trunk allowed vlan ALL", "switchport access vlan +7", "mtu 1_0",
+                                       "ip address dhcp 1.2.3.4", "ip address negotiated 255.0.0.0", "ip address dhcp 255.255.255.0",
+                                       "ip address negotiated 255.255.255.255"])))
+    if rng.random() < 0.15:
+        # several remove / except lines in one stanza (each kind accumulates)
+        kind = rng.choice(["remove", "except"])
+        for _ in range(rng.choice([2, 2, 3])):
+            extra.append(("x", "switchport trunk allowed vlan %s %s" % (kind if rng.random() < 0.8 else rng.choice(["remove", "except", "add"]),
+                                                                        render_parts(rand_parts(rng)))))
     items = items + extra
     rng.shuffle(items)
     ind = rng.choice([" ", " ", "  ", "   ", "\t", "  "])
@@ -446,6 +483,9 @@ def route_expected(d):
         "route_name": wire.enc_str(d["name"] or ""), "tracking_object_name": wire.enc_str("" if d["track"] is None else str(d["track"])),
         "tag": wire.enc_str("" if d["tag"] is None else str(d["tag"])), "permanent": "T" if d["permanent"] else "F",
         "multicast": "F", "global_next_hop": "T" if (not d["vrf"] or d["global"]) else "F",
+        "address_family": wire.enc_str("ip"),
+        # next hop as one string: interface and address, whichever are there (surrounding blanks are not judged)
+        "nexthop_str": " ".join(x for x in (d["intf"], d["nh"]) if x),
     }
 
 
@@ -514,6 +554,18 @@ def cases(rng, tier):
                     yield mk_route(" ".join(route_words(d)), d, True)
         for line in MALFORMED_ROUTES:
             yield mk_route(line, None, False, stream="route-malformed")
+        # (4) config_line_factory called directly: one argument of a wrong type / an unknown syntax at a time, and pairs
+        good = ("list", "str", "None", ["str", "ios"], "0")
+        alts = [list(AL_KINDS), list(LINE_KINDS), list(DELIM_KINDS),
+                [["str", x] for x in ("ios", "nxos", "iosxr", "asa", "junos", "foo", "", "IOS")] + [["None"], ["int"], ["list"]], list(DEBUG_KINDS)]
+        for pos, vals in enumerate(alts):
+            for v in vals:
+                a = list(good)
+                a[pos] = v
+                yield mk_factory(*a)
+                b = list(a)
+                b[2] = "list"
+                yield mk_factory(*b)
         # (3) vendor fixtures, factory on vs off
         for name, lines in T.fixture_configs():
             syn = "asa" if name.endswith(".asa") else "nxos" if name.endswith(".nxos") else "iosxr" if name.endswith(".iosxr") else "ios"
@@ -542,6 +594,36 @@ def cases(rng, tier):
             else:
                 ws[i] = ws[i] + rng.choice(["x", "1", ".", ""])
         yield mk_route(" ".join(ws), None, False, stream="route-malformed")
+    for _ in range({"quick": 60, "thorough": 1500, "search": 60}[tier]):
+        syn = rng.choice([["str", rng.choice(["ios", "nxos", "iosxr", "asa", "junos", "foo", ""])], ["None"], ["int"], ["list"], ["str", "ios"], ["str", "nxos"]])
+        yield mk_factory(rng.choice(["list"] * 3 + list(AL_KINDS)), rng.choice(["str"] * 3 + list(LINE_KINDS)), rng.choice(list(DELIM_KINDS)), syn,
+                         rng.choice(["0"] * 3 + list(DEBUG_KINDS)),
+                         line=rng.choice(["hostname R1", "interface Gi0/1", "ip route 10.0.0.0 255.0.0.0 Null0", " shutdown", "!", "", "ipv6 route ::/0 Null0"]))
+    # (3b) junos with the factory on (brace conversion first; outside the tree model: on/off dumps compared by the oracle only),
+    #      and lines that walk the class dispatch of the other syntaxes to its end
+    DISPATCH = [" ipv6 route ::/0 Null0", "ipv6 route ::/0 Null0", " interface Gi0/9", "aaa accounting exec default start-stop group tacacs+",
+                " aaa accounting commands 15 default none", "aaa authentication login default local", " aaa authorization exec default local",
+                "no cdp run", "logging event link-status global", "spanning-tree portfast default", "spanning-tree portfast bpduguard default",
+                " hostname inner", " ip route 10.0.0.0 255.0.0.0 Null0", "aaa new-model"]
+    for _ in range({"quick": 120, "thorough": 3000, "search": 100}[tier]):
+        syn = rng.choice(["ios", "ios", "nxos", "iosxr", "asa"])
+        lines = T.rand_config(rng, maxlen=6, banners=False, delims=None)
+        for _ in range(rng.choice([1, 2, 3])):
+            lines.insert(rng.randrange(len(lines) + 1), rng.choice(DISPATCH))
+        yield mk_tree(syn, False, None, lines, stream="tree-dispatch")
+    for _ in range({"quick": 80, "thorough": 2000, "search": 60}[tier]):
+        r = rng.random()
+        if r < 0.5:
+            lines = ["interfaces {", "    ge-0/0/%d {" % rng.randint(0, 3), "        unit 0 {", "            family inet {",
+                     "                address 10.0.%d.1/24;" % rng.randint(0, 9), "            }", "        }", "    }", "}",
+                     "system {", "    host-name R%d;" % rng.randint(1, 9), "}"]
+            if rng.random() < 0.5:
+                del lines[rng.randrange(len(lines))]
+        else:
+            lines = T.rand_config(rng, maxlen=8, banners=False, delims=None)
+        c = mk_tree("junos", False, None, lines, stream="tree-junos")
+        c["req"] = None
+        yield c
     # (3) transparency on treelib's generators, every syntax
     for _ in range({"quick": 800, "thorough": 16000, "search": 500}[tier]):
         delims = rng.choice(T.DELIM_SETS)
@@ -589,6 +671,8 @@ def neighbours(case, rng):
 
 
 def nontrivial(case):
+    if case["kind"] == "factory":
+        return False
     if case["kind"] == "intf":
         return case["desc"] is not None and len(items_of(case["desc"])) - len(case["desc"]["others"]) >= 2
     if case["kind"] == "route":
@@ -598,6 +682,8 @@ def nontrivial(case):
 
 
 def describe(case):
+    if case["kind"] == "factory":
+        return {k: case[k] for k in ("kind", "al", "ln", "ds", "syn", "dbg", "line")}
     if case["kind"] == "intf":
         return {"kind": "intf", "lines": case["lines"], "idx": case["idx"], "canonical": case["canonical"], "stream": case["stream"]}
     if case["kind"] == "route":
@@ -608,6 +694,9 @@ def describe(case):
 
 def buckets(case, ans):
     out = ["stream:" + case["stream"]]
+    if case["kind"] == "factory":
+        out.append("factory-answer:" + ans.rsplit("#", 1)[0].split("|")[0])
+        return out
     if case["kind"] == "intf":
         d = case["desc"]
         if d is not None and case["canonical"]:
@@ -700,6 +789,11 @@ def impl_intf(case):
         _safe(g("trunk_vlans_allowed"), lambda v: s(v.as_compressed_str())),
         _safe(g("portchannel_number"), str), _safe(g("is_in_portchannel"), _enc_bool),
     ]
+    try:
+        out.append(str(int(o.port)))
+    except Exception:  # NoRegexMatch / InvalidCiscoInterface from CiscoIOSInterface (C15's subject)
+        out.append("err")
+    out.append(_safe(g("ip_addr"), s))
     return "|".join(out) + "#" + _transparency(case["lines"], p)
 
 
@@ -720,6 +814,9 @@ def impl_route(case):
         except AttributeError:
             out.append("err")        # masklen: network_object is None
             continue
+        except (ValueError, NotImplementedError) as e:       # nexthop_vrf / unicast of an `ip route` object
+            out.append("err:" + type(e).__name__)
+            continue
         out.append(_enc_bool(v) if isinstance(v, bool) else str(v) if isinstance(v, int) else s(v))
     return "|".join(out) + "#" + _transparency([case["line"]], p)
 
@@ -734,11 +831,39 @@ def impl_tree(case):
     return off + "#" + ("same" if on == off else on)
 
 
+def impl_factory(case):
+    """config_line_factory(...) called directly; `ok|<class name>|<text>` or the exception class"""
+    quiet_ccp()
+    from ciscoconfparse2.ciscoconfparse2 import config_line_factory
+    from ciscoconfparse2.ccp_abc import BaseCfgLine
+    line = case["line"]
+    kw = {
+        "all_lines": {"list": [line], "tuple": (line,), "None": None, "str": line}[case["al"]],
+        "line": {"str": line, "None": None, "int": 5, "bytes": line.encode()}[case["ln"]],
+        "index": 0,
+        "syntax": {"str": case["syn"][-1], "None": None, "int": 5, "list": ["ios"]}[case["syn"][0]],
+        "debug": {"0": 0, "1": 1, "True": True, "None": None, "str": "0", "float": 1.5}[case["dbg"]],
+    }
+    if case["ds"] != "None":
+        kw["comment_delimiters"] = {"list": ["!"], "str": "!", "tuple": ("!",)}[case["ds"]]
+    try:
+        o = config_line_factory(**kw)
+    except Exception as e:  # noqa: BLE001 - the class is the observation
+        return "err:" + type(e).__name__ + "#-"
+    if not isinstance(o, BaseCfgLine):
+        return "notaline:" + type(o).__name__ + "#-"
+    if not isinstance(o.text, str):
+        return "ok|" + type(o).__name__ + "|!text-is-" + type(o.text).__name__ + "#-"
+    return "ok|" + type(o).__name__ + "|" + wire.enc_str(o.text) + "#-"
+
+
 def impl(case):
-    return {"intf": impl_intf, "route": impl_route, "tree": impl_tree}[case["kind"]](case)
+    return {"intf": impl_intf, "route": impl_route, "tree": impl_tree, "factory": impl_factory}[case["kind"]](case)
 
 
 def compare(case, impl_ans, model_ans):
+    if case["kind"] == "factory":        # the model answers the argument checks only: ok / exception class
+        return impl_ans.rsplit("#", 1)[0].split("|")[0] == model_ans
     return impl_ans.rsplit("#", 1)[0] == model_ans
 
 
@@ -748,6 +873,18 @@ def oracle(case, ans):
     fails = []
     if not (tail == "same" or tail == "-" or (case["kind"] == "tree" and tail.startswith("raise:"))):
         fails.append("factory on/off: texts or family links differ (%s)" % tail[:60])
+    if case["kind"] == "factory":
+        well_typed = (case["al"] == "list" and case["ln"] == "str" and case["ds"] in ("None", "list") and DEBUG_KINDS[case["dbg"]]
+                      and case["syn"][0] == "str" and case["syn"][1] in ("ios", "nxos", "iosxr", "asa", "junos"))
+        if well_typed:
+            f = head.split("|")
+            if f[0] != "ok":
+                fails.append("config_line_factory refused a well-typed call: " + head[:60])
+            elif f[2].startswith("!") or wire.dec_str(f[2]) != case["line"]:
+                fails.append("the factory object's text %s differs from the line %r" % (_show(f[2]), case["line"]))
+        elif not head.startswith("err:"):
+            fails.append("config_line_factory accepted an ill-typed call / unknown syntax: " + head[:60])
+        return fails
     if case["kind"] == "tree" or not case["canonical"]:
         return fails
     if case["kind"] == "intf":
@@ -767,6 +904,11 @@ def oracle(case, ans):
             return fails + ["well-formed route line not parsed: " + head]
         got = dict(zip(ROUTE_FIELDS, head.split("|")))
         for k, want in route_expected(case["desc"]).items():
+            if k == "nexthop_str":
+                have = _show(got[k])
+                if got[k].startswith("err") or wire.dec_str(got[k]).strip() != want:
+                    fails.append("route nexthop_str is %s, described %r" % (have, want))
+                continue
             if got[k] != want:
                 fails.append("route %s is %s, described %s" % (k, _show(got[k]), _show(want)))
     return fails[:4]
